@@ -21,10 +21,13 @@ fn c15_q_color_depth() {
 }
 
 fn frame_with_one_chunk_fails(ty: u16, payload: &[u8]) {
+    frame_n_with_one_chunk_fails(0, ty, payload);
+}
+fn frame_n_with_one_chunk_fails(frame_id: u16, ty: u16, payload: &[u8]) {
     let bytes = mk_frame(&[mk_chunk(ty, payload)], 100, 1, 1);
     let mut reader = AseReader::with(&bytes[..]);
-    let mut info = ParseInfo::new(1, 100);
-    let r = parse_frame(&mut reader, 0, PixelFormat::Rgba, &mut info);
+    let mut info = ParseInfo::new(2, 100);
+    let r = parse_frame(&mut reader, frame_id, PixelFormat::Rgba, &mut info);
     assert!(r.is_err(), "an unsupported feature inside a frame makes the frame (hence the load) fail");
     kani::cover!(true);
     core::mem::forget(r);
@@ -70,6 +73,7 @@ fn c15_q_frame_propagates_layer_error() {
 #[kani::unwind(9)]
 #[kani::stub(alloc::fmt::format, crate::vklib::empty_format)]
 #[kani::stub(std::hash::RandomState::new, crate::vklib::fixed_random_state)]
+#[kani::stub(crate::reader::AseReader::unzip, crate::vklib::stub_unzip_identity)]
 fn c15_q_frame_propagates_cel_type_error() {
     let mut p = Vec::new();
     put16(&mut p, 0);
@@ -99,6 +103,24 @@ fn c15_q_frame_propagates_tag_direction_error() {
     put_any(&mut p, 12);
     put_any_ascii(&mut p, 0);
     frame_with_one_chunk_fails(0x2018, &p);
+}
+
+/// the same in a frame after the first (tags there are not kept, but an unsupported direction is still refused)
+#[kani::proof]
+#[kani::unwind(9)]
+#[kani::stub(alloc::fmt::format, crate::vklib::empty_format)]
+#[kani::stub(std::hash::RandomState::new, crate::vklib::fixed_random_state)]
+fn c15_q_frame1_propagates_tag_direction_error() {
+    let mut p = Vec::new();
+    put16(&mut p, 1);
+    put_zeros(&mut p, 8);
+    put_any(&mut p, 4);
+    let dir: u8 = kani::any();
+    kani::assume(dir > 2);
+    p.push(dir);
+    put_any(&mut p, 12);
+    put_any_ascii(&mut p, 0);
+    frame_n_with_one_chunk_fails(1, 0x2018, &p);
 }
 
 /// header: pixel aspect ratio other than 1:1 (or a zero component) is refused; colour depth likewise; everything
